@@ -213,6 +213,15 @@ func decodeLossless(data []byte) (image.Image, error) {
 // encodeFrameForAnimation encodes an image to a raw VP8/VP8L bitstream
 // for use by the animation package's FrameEncoderFunc.
 func encodeFrameForAnimation(img image.Image, isLossless bool, quality int) ([]byte, error) {
+	// The animation options are not validated: keep the quality inside the
+	// documented 0-100 range for both codecs (the lossy one clamps by itself,
+	// the lossless one would run its match search quality*quality/128 times).
+	if quality < 0 {
+		quality = 0
+	}
+	if quality > 100 {
+		quality = 100
+	}
 	opts := &EncoderOptions{
 		Lossless: isLossless,
 		Quality:  float32(quality),
